@@ -201,6 +201,10 @@ def eval_array(expr, data, _cache=None):
         return v
 
     if isinstance(expr, (Placeholder, SizeParam)):
+        # (data may also be keyed by object identity: same-named inputs of
+        # different ranks in the distributed replays)
+        if id(expr) in data:
+            return done(np.asarray(data[id(expr)]))
         return done(np.asarray(data[expr.name]))
     if isinstance(expr, DataWrapper):
         return done(np.asarray(expr.data))
